@@ -113,9 +113,14 @@ func ExtractIndexNames(path string) ([]string, []string) {
 	indexValues := make([]string, 0)
 	jsonMatches := rOnIndex.FindAllStringSubmatch(path, -1)
 	for _, m := range jsonMatches {
-		idxName := m[1][1:strings.LastIndex(m[1], "=")]
+		eqIdx := strings.LastIndex(m[1], "=")
+		if eqIdx < 0 {
+			// a bracketed group without '=' is part of a name, not an index
+			continue
+		}
+		idxName := m[1][1:eqIdx]
 		indexNames = append(indexNames, idxName)
-		idxValue := m[1][strings.LastIndex(m[1], "=")+1 : len(m[1])-1]
+		idxValue := m[1][eqIdx+1 : len(m[1])-1]
 		indexValues = append(indexValues, idxValue)
 	}
 	return indexNames, indexValues
@@ -135,9 +140,10 @@ func FindPathFromModel(path string, rwPaths ReadWritePathMap, exact bool) (bool,
 	}
 
 	if strings.HasSuffix(path, "]") { //Ends with index
-		indices, _ := ExtractIndexNames(path)
-		// Add on the last index
-		searchPathNoIndices = fmt.Sprintf("%s/%s", searchPathNoIndices, indices[len(indices)-1])
+		if indices, _ := ExtractIndexNames(path); len(indices) > 0 {
+			// Add on the last index
+			searchPathNoIndices = fmt.Sprintf("%s/%s", searchPathNoIndices, indices[len(indices)-1])
+		}
 	}
 
 	// First search through the RW paths
